@@ -58,12 +58,16 @@ def splitCaptures (getter : List (Str × Str)) (gd : List (Str × Option Str)) :
     let others := rest.filter fun kv => !startsWith kv.1 pre
     (acc.1 ++ [(g.1, mine.map fun kv => (replaceFirst kv.1 pre [], kv.2))], others)) ([], gd)).1
 
-/-- `parse`: merge occurrences on `name.split("__")[0]` (later captures override equal keys) -/
+/-- `parse`: merge occurrences on `name.split("__")[0]` (later captures override equal keys).  With
+    `Gen.group_merge_apart` the key of a capture carries the occurrence it came from (`key__occurrence`), so captures
+    of different occurrences never override one another; without it the counter of a directive repeated inside one
+    occurrence (`number__1`) collides with the suffix of the next occurrence. -/
 def mergeOccurrences (parts : List (Str × List (Str × Option Str))) : List (Str × List (Str × Option Str)) :=
   parts.foldl (fun acc p =>
     let k := splitFirst p.1 ['_', '_']
     let old := (alookup k acc).getD []
-    ainsert k (p.2.foldl (fun a kv => ainsert kv.1 kv.2 a) old) acc) []
+    ainsert k (p.2.foldl (fun a kv =>
+      ainsert (if Gen.group_merge_apart then kv.1 ++ ['_', '_'] ++ p.1 else kv.1) kv.2 a) old) acc) []
 
 /-- a parsed group: one object per declared member (defaults for members the format omits) -/
 abbrev GObj := List (Str × Obj)
